@@ -674,7 +674,7 @@ def run(ctx):
     files = [f for f in CORPUS] + list(exhaustive(nfull, nsmall))
     ctx.extra["exhaustive_rows"] = {"full_alphabet": nfull, "reduced_alphabet": nsmall, "files": len(files)}
     _run_files(ctx, files, schema, dd, validate_every=25)
-    nrand = 2500 if ctx.quick() else 25000
+    nrand = 2500 if ctx.quick() else 15000
     rnd = []
     for k in range(nrand):
         rows = gen_rows(ctx.rng, ctx.rng.randint(1, 12), spells)
